@@ -566,11 +566,12 @@ class Sweep(object):
       oracle(ctx, res, info) -> add violations / keys
     """
 
-    def __init__(self, scn, res, mode, name):
+    def __init__(self, scn, res, mode, name, gran="line"):
         self.scn = scn
         self.res = res
         self.mode = mode
         self.name = name
+        self.gran = gran
         self.hit = 0
         self.missed = 0
         self.overlap = 0
@@ -601,6 +602,7 @@ class Sweep(object):
         ctx = scn.setup()
         info = {"pos": pos, "hit": False, "istate": None, "site": None}
         try:
+            TR.set_granularity(self.gran)
             role = scn.victim_role(ctx)
             arm = TR.arm(role, pause_k=pos, record=(pos is None))
             v = scn.start_victim(ctx)
